@@ -1,7 +1,10 @@
 ---------------------------- MODULE ChunkTrace ----------------------------
 (* C14: trace validation of the answers to wildcard reads recorded by the IM world (harness c14).  One run:
-     Req(items)   the attributes of the selected cluster in expansion order; {a, k = "s", size} or {a, k = "l", els}
-     El(...)      one AttributeReportIB decoded by the client, in the order received; chunk = number of the message
+     Req(items, events, evstatus)   the attributes of the selected cluster in expansion order; {a, k = "s", size} or
+                  {a, k = "l", els}; the payload sizes of the selected events waiting in the node's queue, oldest first;
+                  the number of concrete event paths that select nothing (each is answered by one status)
+     El(...)      one AttributeReportIB (k = data / status) or EventReportIB (k = ev / evstatus) decoded by the client,
+                  in the order received; chunk = number of the message
      End(...)     the client's exchange ended: error text ("" = the last message said so), per-message summary
                   (elements, more-chunks flag, malformed), the largest datagram of the device.
    Layer I (Chunk.tla with the `fits` decision left to the implementation): the elements follow the writer's state
@@ -13,13 +16,16 @@
 EXTENDS Integers, Sequences, FiniteSets, TLC, Json, IOUtils
 CONSTANTS SafeFit, MaxDatagram
 Rec == ndJsonDeserialize(IOEnv.TRACE)
-VARIABLES i, items, cur, li, lastChunk, nEl
-vars == <<i, items, cur, li, lastChunk, nEl>>
-Init == i = 1 /\ items = <<>> /\ cur = 1 /\ li = 0 /\ lastChunk = 0 /\ nEl = 0
+VARIABLES i, items, cur, li, lastChunk, nEl,
+          evs, nEv, evSt, nSt, lastNo      \* expected events, events seen, expected / seen event statuses, last event number
+vars == <<i, items, cur, li, lastChunk, nEl, evs, nEv, evSt, nSt, lastNo>>
+Init == i = 1 /\ items = <<>> /\ cur = 1 /\ li = 0 /\ lastChunk = 0 /\ nEl = 0 /\ evs = <<>> /\ nEv = 0 /\ evSt = 0 /\ nSt = 0 /\ lastNo = -1
 IsEvent(x) == i <= Len(Rec) /\ Rec[i].ev = x /\ i' = i + 1
 R == Rec[i]
-Reset == IsEvent("Reset") /\ items' = <<>> /\ cur' = 1 /\ li' = 0 /\ lastChunk' = 0 /\ nEl' = 0
+Reset == IsEvent("Reset") /\ items' = <<>> /\ cur' = 1 /\ li' = 0 /\ lastChunk' = 0 /\ nEl' = 0 /\ evs' = <<>> /\ nEv' = 0 /\ evSt' = 0 /\ nSt' = 0 /\ lastNo' = -1
 Req == IsEvent("Req") /\ items' = R.items /\ cur' = 1 /\ li' = 0 /\ lastChunk' = 0 /\ nEl' = 0
+       /\ evs' = (IF "events" \in DOMAIN R THEN R.events ELSE <<>>) /\ evSt' = (IF "evstatus" \in DOMAIN R THEN R.evstatus ELSE 0)
+       /\ nEv' = 0 /\ nSt' = 0 /\ lastNo' = -1
 It == items[cur]
 Advance == cur' = cur + 1 /\ li' = 0
 \* the element is the one the writer produces next
@@ -38,17 +44,31 @@ ElOk ==
                        \/ R.els = <<>> /\ Len(It.els) > 0 /\ li' = 1 /\ cur' = cur    \* the empty list first, the elements follow
           ELSE /\ R.li = "append" /\ li <= Len(It.els) /\ R.len = It.els[li]
                /\ IF li = Len(It.els) THEN Advance ELSE li' = li + 1 /\ cur' = cur
-El == IsEvent("El") /\ ElOk /\ lastChunk' = R.chunk /\ nEl' = nEl + 1 /\ UNCHANGED items
+AttrEl == IsEvent("El") /\ R.k \in {"data", "status"} /\ ElOk /\ lastChunk' = R.chunk /\ nEl' = nEl + 1 /\ UNCHANGED <<items, evs, nEv, evSt, nSt, lastNo>>
+\* event reports come after every attribute report; the statuses of the paths that select nothing first, then every selected
+\* event exactly once, oldest first, with its payload
+EvEl == /\ IsEvent("El") /\ R.k \in {"ev", "evstatus"}
+        /\ cur = Len(items) + 1 /\ li = 0 /\ R.chunk >= lastChunk
+        /\ IF R.k = "evstatus" /\ R.status = "ResourceExhausted"
+           THEN \* stands for an event no message can carry; only as the first element of a message
+                /\ nEv < Len(evs) /\ evs[nEv + 1] > SafeFit /\ R.chunk > lastChunk /\ R.cl = 101
+                /\ nEv' = nEv + 1 /\ UNCHANGED <<nSt, lastNo>>
+           ELSE IF R.k = "evstatus" THEN nSt < evSt /\ nEv = 0 /\ nSt' = nSt + 1 /\ UNCHANGED <<nEv, lastNo>>
+           ELSE /\ nEv < Len(evs) /\ R.len = evs[nEv + 1] /\ R.no > lastNo
+                /\ nEv' = nEv + 1 /\ lastNo' = R.no /\ UNCHANGED nSt
+        /\ lastChunk' = R.chunk /\ nEl' = nEl + 1 /\ UNCHANGED <<items, cur, li, evs, evSt>>
+El == AttrEl \/ EvEl
 EndOk ==
   /\ R.error = ""
   /\ cur = Len(items) + 1 /\ li = 0                                       \* Complete / exactly once / ordered
+  /\ nEv = Len(evs) /\ nSt = evSt                                         \* every selected event, every status
   /\ Len(R.chunks) >= 1 /\ Len(R.chunks) >= lastChunk
   /\ \A c \in 1..Len(R.chunks) : /\ R.chunks[c].malformed = ""             \* well-formed on its own
                                  /\ R.chunks[c].more = (c < Len(R.chunks))  \* only the last one ends the interaction
   /\ R.max_size <= MaxDatagram                                            \* fits the transport's maximum size
   /\ Len(R.chunks) <= 2 * nEl + 2                                         \* Bounded: no run of empty messages
-End == IsEvent("End") /\ EndOk /\ UNCHANGED <<items, cur, li, lastChunk, nEl>>
-Other == i <= Len(Rec) /\ Rec[i].ev \notin {"Reset", "Req", "El", "End"} /\ i' = i + 1 /\ UNCHANGED <<items, cur, li, lastChunk, nEl>>
+End == IsEvent("End") /\ EndOk /\ UNCHANGED <<items, cur, li, lastChunk, nEl, evs, nEv, evSt, nSt, lastNo>>
+Other == i <= Len(Rec) /\ Rec[i].ev \notin {"Reset", "Req", "El", "End"} /\ i' = i + 1 /\ UNCHANGED <<items, cur, li, lastChunk, nEl, evs, nEv, evSt, nSt, lastNo>>
 Next == Reset \/ Req \/ El \/ End \/ Other
 Spec == Init /\ [][Next]_vars
 TraceAccepted ==
